@@ -28,6 +28,7 @@ Proof.
   destruct (lookup (run w cf init ls) k) eqn:E; [|auto].
   split; [auto|]. eapply wf_lookup_pos; [apply run_wf, wf_init | exact E].
 Qed.
+Print Assumptions C20_registry_is_count.
 
 (* deleted at step |ls| iff that step is a MAYBE_UNLINK of the key that brings its count from 1
    to 0; a step deletes at most one key *)
@@ -43,6 +44,7 @@ Proof.
   - apply key_eqb_true_iff in E. subst. auto.
   - apply key_eqb_false_iff in E. right. right. intros [A|[]]. auto.
 Qed.
+Print Assumptions C20_refcount.
 
 (* never while another registered user remains: no deletion when the count before the step
    exceeds 1, and after a step that deletes k the count of k is 0 *)
@@ -55,6 +57,7 @@ Proof.
   - intros D. apply loop_delete_iff in D. destruct D as [C D]. rewrite count_snoc, C, D.
     destruct k as [t n]. cbn [cnt_step fst snd]. rewrite key_eqb_refl. reflexivity.
 Qed.
+Print Assumptions C20_not_early.
 
 (* every clean-up call, in the loop (from ANY registry) or at EOF, names a key that is in the
    registry at that moment; EOF calls are a prefix of the pending list *)
@@ -66,6 +69,7 @@ Proof.
   intros H. apply in_pending. destruct (cleanup_all_prefix w cf (pending r)) as [rest E].
   unfold finish in H. rewrite E. apply in_or_app. left. exact H.
 Qed.
+Print Assumptions C20_only_registered.
 
 (* the loop is never stuck and never stops early: one trace entry per line; entry i is the step
    from the registry reached by the first i lines *)
@@ -77,6 +81,7 @@ Theorem C20_total_loop : forall w cf ls,
 Proof.
   intros w cf ls. split; [apply trace_length|]. intros pre l post ->. apply trace_nth.
 Qed.
+Print Assumptions C20_total_loop.
 
 (* malformed lines (undecodable, unknown resource type, unknown command) and unbalanced
    requests (UNREGISTER / MAYBE_UNLINK of a name not in the registry) are logged and leave
@@ -93,6 +98,7 @@ Proof.
   - intros t n. exact (step_unbalanced w cf r l t n).
   - intros e. exact (step_error_unchanged w cf r l e).
 Qed.
+Print Assumptions C20_total.
 
 (* a raising clean-up function (and the warning filter) changes neither registry nor deletions *)
 Theorem C20_cleanup_failure_irrelevant : forall w cf w' cf' r l ls,
@@ -101,6 +107,7 @@ Theorem C20_cleanup_failure_irrelevant : forall w cf w' cf' r l ls,
 Proof.
   intros. destruct (step_env_irrelevant w cf w' cf' r l). repeat split; auto. apply run_env_irrelevant.
 Qed.
+Print Assumptions C20_cleanup_failure_irrelevant.
 
 (* EOF: what is pending is exactly the keys with a positive count, each once, every folder
    after every non-folder; unless warnings are errors AND a clean-up call raises, finish
@@ -116,6 +123,7 @@ Proof.
   intros w cf ls r. split; [intros k; apply pending_iff_count|]. split; [apply pending_nodup, run_wf, wf_init|].
   split; [apply pending_folders_last|]. intros H. apply cleanup_all_complete. exact H.
 Qed.
+Print Assumptions C20_eof.
 
 (* FULL STATEMENT (false): forall w cf ls, fst (finish w cf (run w cf init ls)) = pending (...).
    Refuted when the tracker runs with warnings turned into errors (python -W error, inherited
@@ -134,6 +142,7 @@ Proof.
   split; [vm_compute; reflexivity|]. split; [|vm_compute; reflexivity].
   vm_compute. intros [H|[]]. discriminate H.
 Qed.
+Print Assumptions C20_eof_refuted_werror.
 Close Scope string_scope.
 
 (* the parser: command = what precedes the first colon, type = what follows the last, name =
@@ -144,6 +153,7 @@ Theorem C20_parser : forall l,
   (exists c t, parse l = PFields c [] t /\ strip l = c ++ 58 :: t /\ no_colon c /\ no_colon t) \/
   (exists c n t, parse l = PFields c n t /\ strip l = c ++ 58 :: n ++ 58 :: t /\ no_colon c /\ no_colon t).
 Proof. exact parse_spec. Qed.
+Print Assumptions C20_parser.
 
 (* soundness of the harness' synchronisation group (REGISTER s; MAYBE_UNLINK s; unknown command,
    s not in the registry): from ANY registry it leaves the registry as it was and cleans exactly s *)
@@ -152,6 +162,7 @@ Theorem C20_sync_transparent : forall w cf r l1 l2 l3 t s,
   lookup r (t, s) = None ->
   run w cf r [l1; l2; l3] = r /\ map fst (trace w cf r [l1; l2; l3]) = [[]; [(t, s)]; []].
 Proof. exact sync_transparent. Qed.
+Print Assumptions C20_sync_transparent.
 
 (* readline: the lines are a partition of the stream, none is empty (b"" only at EOF), and a
    newline only ever ends a line *)
@@ -161,6 +172,7 @@ Theorem C20_stream : forall s,
 Proof.
   intros s. split; [apply readlines_concat|]. split; [apply readlines_nonempty | apply readlines_newline_last].
 Qed.
+Print Assumptions C20_stream.
 
 (* non-vacuity: a history with a name containing ':', an unbalanced request, malformed lines, a
    deletion in the loop and a non-trivial EOF phase (file before folder, insertion order) *)
@@ -183,6 +195,7 @@ REGISTER:C:\a:file")
       ([(File, bs "C:\a")], None); ([], None)],
      ([(File, bs "b"); (File, bs "C:\a"); (Folder, bs "d")], false)).
 Proof. vm_compute. reflexivity. Qed.
+Print Assumptions C20_example.
 
 Example C20_example_hypotheses :
   (1 < count [bs "REGISTER:a:file"; bs "REGISTER:a:file"] (File, bs "a")) /\
@@ -193,3 +206,4 @@ Proof.
   split; [vm_compute; reflexivity|]. split; [split; vm_compute; reflexivity|].
   split; [right; left; vm_compute; reflexivity|]. exists EKey. split; [vm_compute; reflexivity | discriminate].
 Qed.
+Print Assumptions C20_example_hypotheses.
